@@ -4,6 +4,8 @@ import (
 	"fmt"
 	"go/token"
 	"go/types"
+	"net"
+	"regexp"
 	"sort"
 	"strings"
 
@@ -109,6 +111,47 @@ func checkC19(c *Ctx) {
 				r.Check(g, "C19.1", "ParseConfig: a configuration is returned only if ParseBlocklists succeeded", ret.Pos(), fnName(f), "success dominated by err == nil",
 					"ParseConfig returns a configuration although list parsing failed: on reload a broken list replaces the previous one")
 			})
+		}
+	}
+	// the embedded *RegConfig is only allocated by the decoder when the file sets one of its keys:
+	// ParseConfig must establish it is non-nil before using or returning it (reload dereferences it)
+	if f := c.P.Func(repoMod+"/"+lib, "", "ParseConfig"); f != nil && f.Blocks != nil {
+		var cfgPath string
+		targets := map[ssa.Instruction]bool{}
+		eachInstr(f, func(in ssa.Instruction) {
+			switch x := in.(type) {
+			case *ssa.Return:
+				if cst, isC := x.Results[0].(*ssa.Const); isC && cst.Value == nil {
+					return
+				}
+				cfgPath = pathOf(x.Results[0])
+				targets[in] = true
+			case *ssa.Call:
+				if cal := x.Call.StaticCallee(); cal != nil && cal.Signature.Recv() != nil && typeShort(cal.Signature.Recv().Type()) == "*lib.RegConfig" {
+					targets[in] = true
+				}
+			}
+		})
+		if cfgPath == "" {
+			r.Unk("C19.1", "ParseConfig: returned configuration", f.Pos(), fnName(f), "no success return found")
+		} else {
+			fp := cfgPath + ".RegConfig"
+			sets := map[ssa.Instruction]bool{}
+			eachInstr(f, func(in ssa.Instruction) {
+				if st, ok := in.(*ssa.Store); ok && pathOf(st.Addr) == fp {
+					if _, isAlloc := stripConv(st.Val).(*ssa.Alloc); isAlloc {
+						sets[in] = true
+					}
+				}
+			})
+			nonNil := edgesEstablishing(f, atomMatcher(Atom{"(" + orderEq(fp, "nil") + ")", false}))
+			hit, w := reach(f, nil, func(in ssa.Instruction) bool { return targets[in] }, inSet(sets), nonNil)
+			if hit {
+				r.Bad("C19.1", "ParseConfig: the embedded *RegConfig may be nil when used or returned", f.Pos(), fnName(f),
+					"the TOML decoder leaves the embedded *RegConfig nil when the file sets none of its keys; ParseConfig uses or returns it without establishing it is non-nil: such a file panics the station in ParseBlocklists / OnReload (also on a SIGHUP reload)", r.blockPath(f, w)...)
+			} else {
+				r.OK("C19.1", "ParseConfig: the embedded *RegConfig is non-nil wherever it is used or returned", f.Pos(), fmt.Sprintf("%d use/return site(s) each preceded by a nil test or an allocation of %s", len(targets), fp))
+			}
 		}
 	}
 	// nothing on the reload path panics or exits
@@ -330,4 +373,340 @@ func checkC19(c *Ctx) {
 		r.OK("C19.3", "printers contain no integer division by a run-time value", token.NoPos, fmt.Sprintf("%d function(s) reachable from %d PrintAndReset implementation(s)", len(reachable), len(modFns)))
 	}
 	_ = nOpt
+	checkC19Enforcement(c)
+}
+
+// parsedLists are the RegConfig fields holding the parsed (enforced) form of the configured lists.
+var c19Lists = map[string]bool{"covertBlocklistSubnets": true, "covertAllowlistSubnets": true, "covertBlocklistDomains": true, "phantomBlocklist": true}
+
+// alwaysAppends reports whether every return of the helper h yields append(param0, param1).
+func alwaysAppends(h *ssa.Function) bool {
+	if h == nil || h.Blocks == nil || len(h.Params) != 2 {
+		return false
+	}
+	want := "append(" + h.Params[0].Name() + ", [" + h.Params[1].Name() + "])"
+	ok, n := true, 0
+	eachInstr(h, func(in ssa.Instruction) {
+		if ret, isR := in.(*ssa.Return); isR {
+			n++
+			if len(ret.Results) != 1 || pathOf(returnedValue(ret, 0, nil)) != want {
+				ok = false
+			}
+		}
+	})
+	return ok && n > 0
+}
+
+type listLoop struct {
+	field        string
+	header, body *ssa.BasicBlock
+	done         *ssa.BasicBlock
+}
+
+// listLoops finds `for range c.<list>` loops over the parsed lists.
+func listLoops(f *ssa.Function) []listLoop {
+	var out []listLoop
+	for _, b := range f.Blocks {
+		if b.Comment != "rangeindex.loop" || len(b.Succs) != 2 {
+			continue
+		}
+		iff, ok := b.Instrs[len(b.Instrs)-1].(*ssa.If)
+		if !ok {
+			continue
+		}
+		bo, ok := iff.Cond.(*ssa.BinOp)
+		if !ok {
+			continue
+		}
+		ln, ok := bo.Y.(*ssa.Call)
+		if !ok || len(ln.Call.Args) != 1 {
+			continue
+		}
+		u, ok := ln.Call.Args[0].(*ssa.UnOp)
+		if !ok {
+			continue
+		}
+		o, fld, ok := fieldOwner(u.X)
+		if !ok || o != "lib.RegConfig" || !c19Lists[fld] {
+			continue
+		}
+		out = append(out, listLoop{fld, b, b.Succs[0], b.Succs[1]})
+	}
+	return out
+}
+
+func checkC19Enforcement(c *Ctx) {
+	r := c.R
+	const lib = "pkg/station/lib"
+	// ---- C19.4 every accepted entry is recorded and consulted
+	r.Rule("C19.4", "every parsed list entry is stored in the enforced list; decisions examine every entry; shipped configurations parse", 12)
+	if f := c.fn("C19.4", lib, "RegConfig", "ParseBlocklists"); f != nil {
+		parsers := map[string]bool{"net.ParseCIDR": true, "regexp.Compile": true, "regexp.CompilePOSIX": true, "net/netip.ParsePrefix": true}
+		isParse := func(in ssa.Instruction) bool {
+			cl, ok := in.(*ssa.Call)
+			return ok && parsers[calleeName(&cl.Call)]
+		}
+		n := 0
+		eachInstr(f, func(in ssa.Instruction) {
+			call, ok := in.(*ssa.Call)
+			if !ok || !parsers[calleeName(&call.Call)] {
+				return
+			}
+			n++
+			cp := pathOf(call)
+			src := pathOf(call.Call.Args[0])
+			if i := strings.IndexAny(src, "[("); i > 0 {
+				src = src[:i] + "…"
+			}
+			records := map[ssa.Instruction]bool{}
+			eachInstr(f, func(in2 ssa.Instruction) {
+				st, ok := in2.(*ssa.Store)
+				if !ok {
+					return
+				}
+				o, fld, ok := fieldOwner(st.Addr)
+				if !ok || o != "lib.RegConfig" || !c19Lists[fld] {
+					return
+				}
+				ap := pathOf(st.Addr)
+				vp := pathOf(st.Val)
+				if strings.HasPrefix(vp, "append("+ap+", ["+cp+"#") {
+					records[in2] = true
+					return
+				}
+				if hc, ok := stripConv(st.Val).(*ssa.Call); ok {
+					if h := hc.Call.StaticCallee(); h != nil && isRepoPath(fnPkgPath(h)) && len(hc.Call.Args) == 2 &&
+						pathOf(hc.Call.Args[0]) == ap && strings.HasPrefix(pathOf(hc.Call.Args[1]), cp+"#") && alwaysAppends(h) {
+						records[in2] = true
+					}
+				}
+			})
+			errEdges := edgesEstablishing(f, atomMatcher(errAtoms(call, false)...))
+			hit, w := reach(f, call, func(in2 ssa.Instruction) bool {
+				if _, isR := in2.(*ssa.Return); isR {
+					return true
+				}
+				return isParse(in2)
+			}, inSet(records), errEdges)
+			if hit {
+				r.Bad("C19.4", "ParseBlocklists: an entry parsed from "+src+" may not be stored", call.Pos(), fnName(f),
+					"after "+shortName(calleeName(&call.Call))+" accepted an entry there is a path to the next entry (or the return) that does not append that entry to its enforced list unconditionally: the configuration is accepted but the entry is not enforced", r.blockPath(f, w)...)
+			} else {
+				r.OK("C19.4", "ParseBlocklists: every entry parsed from "+src+" is appended to its list", call.Pos(), fmt.Sprintf("%d recording store(s) on every success path", len(records)))
+			}
+		})
+		if n < 4 {
+			r.Unk("C19.4", "ParseBlocklists: parse calls", f.Pos(), fnName(f), fmt.Sprintf("found %d parse calls, expected >= 4", n))
+		}
+	}
+	// decisions: every loop over a parsed list examines every entry
+	matchers := map[string]bool{"(*net.IPNet).Contains": true, "(*regexp.Regexp).MatchString": true, "(*regexp.Regexp).Match": true, "(net/netip.Prefix).Contains": true}
+	nLoops := 0
+	seenList := map[string]bool{}
+	for _, f := range c.funcsOfPkgs(lib) {
+		if f.Name() == "ParseBlocklists" {
+			continue
+		}
+		loops := listLoops(f)
+		if len(loops) == 0 {
+			continue
+		}
+		headers := map[ssa.Instruction]bool{}
+		for _, l := range loops {
+			headers[l.header.Instrs[0]] = true
+		}
+		for _, l := range loops {
+			nLoops++
+			seenList[l.field] = true
+			isMatch := func(in ssa.Instruction) bool {
+				cl, ok := in.(*ssa.Call)
+				if !ok || !matchers[calleeName(&cl.Call)] {
+					return false
+				}
+				return strings.Contains(pathOf(recvOf(&cl.Call)), "."+l.field+"[")
+			}
+			matchCalls := map[ssa.Instruction]bool{}
+			matchTrue := map[edge]bool{}
+			eachInstr(f, func(in ssa.Instruction) {
+				if isMatch(in) {
+					matchCalls[in] = true
+				}
+			})
+			for _, b := range f.Blocks {
+				iff, ok := b.Instrs[len(b.Instrs)-1].(*ssa.If)
+				if !ok {
+					continue
+				}
+				cond, neg := iff.Cond, false
+				for {
+					if u, ok := cond.(*ssa.UnOp); ok && u.Op == token.NOT {
+						cond, neg = u.X, !neg
+						continue
+					}
+					break
+				}
+				if ci, ok := cond.(ssa.Instruction); ok && matchCalls[ci] {
+					slot := 0
+					if neg {
+						slot = 1
+					}
+					matchTrue[edge{b.Index, slot}] = true
+				}
+			}
+			label := fnName(f) + ": loop over " + l.field
+			if len(matchCalls) == 0 {
+				r.Unk("C19.4", label, l.header.Instrs[0].Pos(), fnName(f), "no Contains/MatchString call on the loop element found")
+				continue
+			}
+			// (a) next iteration only after testing this entry
+			hitA, wA := reachAt(f, l.body, func(in ssa.Instruction) bool { return in == l.header.Instrs[0] }, inSet(matchCalls), nil)
+			// (b) leaving the loop early only on a match
+			blockH := map[ssa.Instruction]bool{l.header.Instrs[0]: true}
+			hitB, wB := reachAt(f, l.body, func(in ssa.Instruction) bool {
+				if _, isR := in.(*ssa.Return); isR {
+					return true
+				}
+				return in.Block() == l.done
+			}, inSet(blockH), matchTrue)
+			switch {
+			case hitA:
+				r.Bad("C19.4", label+" can skip an entry", l.header.Instrs[0].Pos(), fnName(f), "an iteration can continue to the next entry without testing the current one: that accepted entry is not enforced", r.blockPath(f, wA)...)
+			case hitB:
+				r.Bad("C19.4", label+" can stop before the last entry without a match", l.header.Instrs[0].Pos(), fnName(f), "the loop can be left (break / return) on a non-matching entry: the entries after it are not enforced", r.blockPath(f, wB)...)
+			default:
+				r.OK("C19.4", label+" tests every entry until one matches", l.header.Instrs[0].Pos(), fmt.Sprintf("%d match call(s); early exit only on a match", len(matchCalls)))
+			}
+		}
+		// (c) a permissive answer is never given without consulting a list
+		hitC, wC := reach(f, nil, func(in ssa.Instruction) bool {
+			ret, ok := in.(*ssa.Return)
+			if !ok || len(ret.Results) != 1 {
+				return false
+			}
+			cst, isC := returnedValue(ret, 0, nil).(*ssa.Const)
+			return isC && cst.Value != nil && cst.Value.String() == "false"
+		}, inSet(headers), nil)
+		if hitC {
+			r.Bad("C19.4", fnName(f)+": answers 'not blocked' without consulting its list", f.Pos(), fnName(f), "a path returns false (allowed) without entering any loop over the enforced lists", r.blockPath(f, wC)...)
+		} else {
+			r.OK("C19.4", fnName(f)+": 'not blocked' only after the list was examined", f.Pos(), "every return false passes a list loop header")
+		}
+	}
+	for l := range c19Lists {
+		if !seenList[l] {
+			r.Bad("C19.4", "list "+l+" is never consulted", token.NoPos, l, "no decision function iterates over RegConfig."+l+": its accepted entries are not enforced")
+		}
+	}
+	// shipped configurations: every list entry parses (constant data, evaluated with the parsers' own grammar)
+	for _, rel := range []string{"cmd/application/app_config.toml", "simulation/phantombox/config/application/config.toml"} {
+		b, err := c.readRepoFile(rel)
+		if err != nil {
+			if rel == "cmd/application/app_config.toml" {
+				r.Unk("C19.4", rel, token.NoPos, rel, "cannot read the shipped configuration: "+err.Error())
+			}
+			continue
+		}
+		bad := badListEntries(string(b))
+		if len(bad) == 0 {
+			r.OK("C19.4", rel+": every block/allow-list entry parses", token.NoPos, "all string entries of the four list keys accepted by net.ParseCIDR / regexp.Compile")
+		}
+		for _, e := range bad {
+			r.Bad("C19.4", rel+": entry "+e+" does not parse", token.NoPos, rel, "the shipped configuration contains a list entry its own parser rejects: the station refuses the shipped file (or, if errors are dropped, never enforces the entry)")
+		}
+	}
+
+	// ---- C19.5 lock discipline of the reload and decision path
+	r.Rule("C19.5", "reload and policy decisions release every lock they take", 1)
+	var fns []*ssa.Function
+	for _, f := range c.funcsOfPkgs(lib) {
+		rc := f.Signature.Recv()
+		if rc != nil && (typeShort(rc.Type()) == "lib.RegConfig" || typeShort(rc.Type()) == "*lib.RegConfig") || f.Name() == "OnReload" || f.Name() == "ParseConfig" {
+			fns = append(fns, f)
+		}
+	}
+	before := len(r.Obligations)
+	checkLockLeaks(r, "C19.5", fns)
+	if len(r.Obligations) == before {
+		r.OK("C19.5", "reload / policy functions take no locks", token.NoPos, fmt.Sprintf("%d function(s) examined", len(fns)))
+	}
+}
+
+// badListEntries extracts the string arrays of the four list keys from a TOML text and returns the entries their parser rejects.
+func badListEntries(s string) []string {
+	var bad []string
+	for _, key := range []string{"covert_blocklist_subnets", "phantom_blocklist", "covert_allowlist_subnets", "covert_blocklist_domains"} {
+		for _, ent := range tomlStringArray(s, key) {
+			var err error
+			if strings.HasSuffix(key, "domains") {
+				_, err = regexp.Compile(ent)
+			} else {
+				_, _, err = net.ParseCIDR(ent)
+			}
+			if err != nil {
+				bad = append(bad, fmt.Sprintf("%s %q", key, ent))
+			}
+		}
+	}
+	return bad
+}
+
+// tomlStringArray returns the basic-string elements of `key = [ ... ]` (uncommented occurrences only).
+func tomlStringArray(s, key string) []string {
+	var out []string
+	lines := strings.Split(s, "\n")
+	for i := 0; i < len(lines); i++ {
+		t := strings.TrimSpace(lines[i])
+		if !strings.HasPrefix(t, key) {
+			continue
+		}
+		rest := strings.TrimSpace(strings.TrimPrefix(t, key))
+		if !strings.HasPrefix(rest, "=") {
+			continue
+		}
+		// scan from the '[' to the matching ']' across lines, honouring strings and comments
+		text := rest[1:] + "\n" + strings.Join(lines[i+1:], "\n")
+		inStr, esc, started := false, false, false
+		var cur strings.Builder
+	scan:
+		for j := 0; j < len(text); j++ {
+			ch := text[j]
+			switch {
+			case inStr:
+				if esc {
+					switch ch {
+					case 'n':
+						cur.WriteByte('\n')
+					case 't':
+						cur.WriteByte('\t')
+					default:
+						cur.WriteByte(ch)
+					}
+					esc = false
+				} else if ch == '\\' {
+					esc = true
+				} else if ch == '"' {
+					inStr = false
+					out = append(out, cur.String())
+					cur.Reset()
+				} else {
+					cur.WriteByte(ch)
+				}
+			case ch == '#':
+				for j < len(text) && text[j] != '\n' {
+					j++
+				}
+			case ch == '[':
+				started = true
+			case ch == ']':
+				break scan
+			case ch == '"' && started:
+				inStr = true
+			}
+		}
+	}
+	return out
+}
+
+func inSet(m map[ssa.Instruction]bool) func(ssa.Instruction) bool {
+	return func(in ssa.Instruction) bool { return m[in] }
 }
